@@ -168,6 +168,31 @@ func sortCandidates(candidates []treasure.Treasure, beaconType hydra.BeaconType,
 	sort.SliceStable(candidates, less)
 }
 
+// pageBeaconAmongCandidates serves a bucket-routed request that carries
+// From and/or Limit. Both address positions of the beacon (documented as
+// "records to skip" and "pre-filter scan limit"), not positions among the
+// matching rows, so the page is cut from the beacon exactly as on the
+// bypass route and then restricted to the bucket candidates. The per-row
+// body decode, which dominates the cost of a filter, is still avoided for
+// every non-candidate.
+func pageBeaconAmongCandidates(sw hydra.Swamp, candidates []treasure.Treasure, beaconType hydra.BeaconType, order hydra.BeaconOrder, from, limit int32, fromTime, toTime *time.Time) ([]treasure.Treasure, error) {
+	page, err := sw.GetTreasuresByBeacon(beaconType, order, from, limit, fromTime, toTime)
+	if err != nil {
+		return nil, err
+	}
+	keys := make(map[string]struct{}, len(candidates))
+	for _, t := range candidates {
+		keys[t.GetKey()] = struct{}{}
+	}
+	out := make([]treasure.Treasure, 0, len(page))
+	for _, t := range page {
+		if _, ok := keys[t.GetKey()]; ok {
+			out = append(out, t)
+		}
+	}
+	return out, nil
+}
+
 // candidateKeySet builds a lookup-friendly key set from a candidate
 // slice. Used by the cap-bearing flows (PatchExpired, ShiftMatching)
 // which keep the engine's beacon-walk-based atomicity primitive and
@@ -181,20 +206,4 @@ func candidateKeySet(candidates []treasure.Treasure) map[string]struct{} {
 		out[t.GetKey()] = struct{}{}
 	}
 	return out
-}
-
-// applyFromLimit returns a sub-slice of candidates respecting the
-// from-offset and limit (limit <= 0 means "no upper bound").
-func applyFromLimit(candidates []treasure.Treasure, from int32, limit int32) []treasure.Treasure {
-	if from < 0 {
-		from = 0
-	}
-	if int(from) >= len(candidates) {
-		return nil
-	}
-	candidates = candidates[from:]
-	if limit > 0 && int(limit) < len(candidates) {
-		candidates = candidates[:limit]
-	}
-	return candidates
 }
